@@ -11,7 +11,7 @@ class C06(Prop):
         dict(pkg="internal/recorder", test="TestVerifC06Recorder"),
         dict(pkg="internal/core", test="TestVerifC06Entry"),
     ]
-    n_quick = 1000
+    n_quick = 800
     n_thorough = 30000
     shard = 150
     ready = True
